@@ -146,3 +146,63 @@ Theorem C01_call_arg_paren_refuted : exists args,
   c01_call_run args <> c01_call_want args.
 Proof. exists [[STR "o(ne.o"]; [STR "prog"]]. split; [reflexivity|]. vm_compute. discriminate. Qed.
 Print Assumptions C01_call_arg_paren_refuted.
+
+(* ---- channel N: nested test drivers (tests.py _build_commands, collapse=True) ---- *)
+From BFG Require Import Make.MakeNested Make.MakeNestedProofs.
+
+(* shell quoting commutes with the doubling of dollar signs: quoting the already written (dollar-doubled) child
+   command line as a whole, as _build_commands does, is the dollar-doubling of the quoted command line; so one
+   expansion by Make removes the doubling at every nesting depth at once *)
+Theorem C01_quote_dollar_commute : forall uw x, quote uw (dollar_esc x) = dollar_esc (quote uw x).
+Proof. exact quote_dollar_esc. Qed.
+Print Assumptions C01_quote_dollar_commute.
+
+(* the literal handed to the parent for a test (any nesting depth) is the dollar-doubling of a text that sh reads,
+   in any context, as ONE word, namely the argument string [arg_of] ... *)
+Theorem C01_nested_collapsed : forall uw us w, wf w = true ->
+  build_collapsed uw us (to_tnode w) = Some (MLit (dollar_esc (sh_text uw w))) /\ img uw (sh_text uw w) (arg_of uw w).
+Proof. intros uw us w H. split; [now apply collapsed_text|now apply sh_text_img]. Qed.
+Print Assumptions C01_nested_collapsed.
+
+(* ... and that argument string delivers the test: by induction on the nesting, a one-word test without children
+   is the word itself, every other test is a command line which one more round of sh splits into exactly its
+   declared words followed by one argument per child, each delivering that child *)
+Theorem C01_nested_delivers : forall uw w, wf w = true -> delivers uw w (arg_of uw w).
+Proof. exact delivers_arg_of. Qed.
+Print Assumptions C01_nested_delivers.
+
+(* top level: the recipe line written for a test (driver) with any tree of tests below it is handed by Make to sh
+   as a text that sh splits into the declared words of the driver followed by one argument per child, and every
+   argument delivers its child through the further rounds of sh (k+1 rounds for a leaf at depth k) *)
+Theorem C01_nested : forall uw us v ws kids line,
+  wf (WNode ws kids) = true -> head_ok uw ws = true ->
+  test_recipe uw us [to_tnode (WNode ws kids)] = Some [line] ->
+  exists args,
+    match recipe_shell_text v line with Some t => sh_words uw t | None => None end = Some (ws ++ args) /\
+    delivers_all uw kids args.
+Proof. exact nested_roundtrip. Qed.
+Print Assumptions C01_nested.
+
+(* non-vacuity: a driver with a multi-word child, a one-word child with a blank, and a nested driver whose leaf
+   carries a quote, a dollar sign and a blank; three rounds of sh, computed *)
+Definition c01_tree : wnode :=
+  WNode [STR "drv"; STR "x y"]
+    [WNode [STR "c1"; STR "$a"; STR "it's"] []; WNode [STR "solo arg"] [];
+     WNode [STR "d2"; STR "-v"] [WNode [STR "leaf"; STR "q'$"; STR "a b"] []]].
+Example C01_nested_nonvacuous :
+  let nu := fun _ : char => false in
+  wf c01_tree = true /\
+  match test_recipe nu nu [to_tnode c01_tree] with
+  | Some [line] =>
+    match (match recipe_shell_text (fun _ => []) line with Some t => sh_words nu t | None => None end) with
+    | Some [w1; w2; a1; a2; a3] =>
+      w1 = STR "drv" /\ w2 = STR "x y" /\ sh_words nu a1 = Some [STR "c1"; STR "$a"; STR "it's"] /\ a2 = STR "solo arg" /\
+      match sh_words nu a3 with
+      | Some [d2; v; b1] => d2 = STR "d2" /\ v = STR "-v" /\ sh_words nu b1 = Some [STR "leaf"; STR "q'$"; STR "a b"]
+      | _ => False
+      end
+    | _ => False
+    end
+  | _ => False
+  end.
+Proof. vm_compute. repeat split. Qed.
